@@ -21,6 +21,8 @@ SRC = os.path.join(REPO, "src")
 VENV_BIN = "/venv/bin"
 PY = os.path.join(VENV_BIN, "python")
 GUARD = "CONDUCTOR_VERIF"
+# where evidence/ and replays/ are written (redirected when checks are tried against scratch mutants)
+OUT = os.environ.get("VERIF_OUT", VERIF)
 
 EXIT_HELD = 0
 EXIT_VIOLATION = 1
@@ -302,8 +304,8 @@ class Report:
         for f in known.get("findings", []):
             if f.get("property") == self.prop and f.get("status", "open") == "open":
                 open_keys[f["key"]] = f
-        os.makedirs(os.path.join(VERIF, "replays"), exist_ok=True)
-        os.makedirs(os.path.join(VERIF, "evidence"), exist_ok=True)
+        os.makedirs(os.path.join(OUT, "replays"), exist_ok=True)
+        os.makedirs(os.path.join(OUT, "evidence"), exist_ok=True)
         new = []
         seen_known = {}
         for v in self.violations:
@@ -319,17 +321,17 @@ class Report:
             if v["key"] in printed:
                 continue
             printed.add(v["key"])
-            path = os.path.join(VERIF, "replays", "%s-%s-%s.json" % (self.prop, v["key"].replace(":", "_").replace("/", "_"), short_hash(v["witness"])))
+            path = os.path.join(OUT, "replays", "%s-%s-%s.json" % (self.prop, v["key"].replace(":", "_").replace("/", "_"), short_hash(v["witness"])))
             with open(path, "w") as f:
                 json.dump(v, f, indent=1, default=repr)
             replay_paths.append(path)
             print("  " + v["msg"].replace("\n", "\n  ")[:3000])
             print("VIOLATION property=%s replay=%s" % (self.prop, path))
-        allp = os.path.join(VERIF, "replays", self.prop + "-all-violations.txt")
+        allp = os.path.join(OUT, "replays", self.prop + "-all-violations.txt")
         if os.path.exists(allp):
             os.unlink(allp)
         if self.violations:
-            with open(os.path.join(VERIF, "replays", self.prop + "-all-violations.txt"), "w") as f:
+            with open(allp, "w") as f:
                 for v in self.violations:
                     f.write("%s | %s\n" % (v["key"], v["msg"].split("\n")[0][:300]))
         missing = [r for r in required_reach if self.reach.get(r, 0) == 0]
@@ -365,7 +367,7 @@ class Report:
             "wall_s": round(wall, 2),
             "violations": len(new),
         }
-        with open(os.path.join(VERIF, "evidence", self.prop + ".json"), "w") as f:
+        with open(os.path.join(OUT, "evidence", self.prop + ".json"), "w") as f:
             json.dump(ev, f, indent=1, default=repr)
         nin = len(self.inconclusive)
         print("%s tier=%s evaluations=%d distinct=%d reach=%s inconclusive=%d known=%d new_violations=%d wall=%.1fs" % (
